@@ -399,7 +399,7 @@ theorem structInv_handle (s : Sys) (self : Cid) (e : Env) (hi : StructInv s) : S
         apply structInv_upd s self (fun x => { x with state := .killing, restarting := some _ }) _ _ hi
         · intro hk; simp at hk
         · intro _; simp
-      · exact hi
+      · exact structInv_sameS (sameS_upd s self _ (fun _ => rfl)) hi
     · repeat' split
       all_goals first
         | exact hi
